@@ -609,12 +609,23 @@ func kindName(k tl.PathKind) string {
 	return "absent-foreign-leaf"
 }
 
-func (ck *checker) honestK(t *trie.Trie, fam *family, root []byte, cur bool, key tl.Key, compressed bool, level string, kind tl.PathKind, m tl.Model) (*proofObj, string, bool) {
+func (ck *checker) honestK(t *trie.Trie, fam *family, root []byte, cur bool, key tl.Key, compressed bool, level string, kind tl.PathKind, m tl.Model) (rp *proofObj, rk string, rok bool) {
 	p := &proofObj{Compressed: compressed, Root: cp(root), Key: cp(key[:])}
 	var included bool
 	var pk, pv []byte
 	var err error
 	kb := cp(key[:])
+	defer func() {
+		if e := recover(); e != nil {
+			enc := "plain"
+			if compressed {
+				enc = "compressed"
+			}
+			ck.c.Violation(fmt.Sprintf("complete/%s/%s/%s/prover-panics", level, enc, kindName(kind)),
+				fmt.Sprintf("proof generation panicked for root %x key %x: %v", root, key, e), map[string]interface{}{"honest": p})
+			rp, rk, rok = nil, kindName(kind), false
+		}
+	}()
 	switch {
 	case !compressed && cur:
 		p.AP, included, pk, pv, err = t.MerkleProof(kb)
@@ -834,8 +845,8 @@ func (ck *checker) rawPart() {
 	c := ck.c
 	// (1) 4-key universes: random 3-batch histories out of the C10 exhaustive space
 	r0 := c.Rand("universes4")
-	us := tl.Universes4(r0, c.Pick(8, 22))
-	nH := c.Pick(24, 200)
+	us := tl.Universes4(r0, c.Pick(8, 20))
+	nH := c.Pick(24, 100)
 	parallel(len(us)*nH, func(i int) {
 		u := &us[i/nH]
 		r := c.Rand(fmt.Sprintf("u4/%d", i))
@@ -862,7 +873,7 @@ func (ck *checker) rawPart() {
 	if c.Quick() {
 		specs = []spec{{8, 20, 4, 40, 3, 6}, {40, 30, 12, 16, 3, 8}, {300, 20, 80, 4, 3, 10}, {2000, 12, 400, 1, 2, 12}}
 	} else {
-		specs = []spec{{6, 30, 4, 400, 4, 6}, {12, 30, 6, 300, 4, 8}, {40, 40, 12, 160, 4, 10}, {300, 30, 80, 48, 4, 12}, {2000, 20, 400, 8, 3, 16}}
+		specs = []spec{{6, 30, 4, 200, 4, 6}, {12, 30, 6, 150, 4, 8}, {40, 40, 12, 80, 4, 10}, {300, 30, 80, 24, 4, 12}, {2000, 20, 400, 4, 3, 16}}
 	}
 	type task struct {
 		s  spec
